@@ -31,6 +31,19 @@ Deliberately left out (and why)
     consensus (the statement speaks of "both rooting states").
   * namespaces larger than the leaf set: the statement quantifies over trees carrying
     exactly the taxa of the namespace (namespaces with *removed* taxa are covered).
+  * TreeList.frequency_of_bipartition (not the split distribution the statement speaks of).
+
+Input classes that fail on the unchanged tree are confined to scope `corner` (so that the
+large scopes stay informative) and are reported there with pinned witnesses:
+  - TreeArray(use_tree_weights=False) still weights (the flag is not forwarded to its
+    SplitDistribution): freq.value / freq.getitem / consensus.support / consensus.below-threshold
+    with `use_tree_weights=False` on the TreeArray / TreeList.consensus routes;
+  - an unrooted 2-leaf tree counts its only split twice (frequency 2.0);
+  - an unrooted tree with a unifurcation at the root or on a root child counts one split twice
+    (encode_bipartitions collapses the basal bifurcation before suppressing unifurcations);
+  - dendropy.calculate.treesum.consensus_tree raises TypeError whenever the root edge has no
+    length (route `treesum.consensus_tree`; the other scopes call TreeSummarizer.tree_from_splits
+    directly, which works).
 """
 import itertools
 import math
